@@ -518,6 +518,24 @@ func init() {
 				if leaf(info, e) {
 					return true
 				}
+				// a text assembled by a helper of the package from such texts, by concatenation with constants
+				// only (`signedRadixDigits(macroText, digits)` = "-" + digits or digits): still the token's own
+				// characters, sign included — nothing trimmed, re-sliced or negated afterwards
+				if hc, ok := e.(*ast.CallExpr); ok && depth <= 3 {
+					if h := originOf(Callee(info, hc)); h != nil && u.Obj != nil && h.Pkg() == u.Obj.Pkg() {
+						if hd := c.declOf[h]; hd != nil && hd.Body != nil && concatOnlyOfParams(c.pkgOf[hd].TypesInfo, hd) {
+							carries := false
+							for _, a := range hc.Args {
+								if argOK(u, a, leaf, depth+1) {
+									carries = true
+								}
+							}
+							if carries {
+								return true
+							}
+						}
+					}
+				}
 				o := identObj(info, e)
 				if o == nil || depth > 3 {
 					return false
@@ -558,7 +576,7 @@ func init() {
 					for i, l := range as.Lhs {
 						if identObj(info, l) == o {
 							ndef++
-							if !leaf(info, ast.Unparen(as.Rhs[i])) {
+							if !leaf(info, ast.Unparen(as.Rhs[i])) && !(depth < 3 && identObj(info, as.Rhs[i]) != o && argOK(u, as.Rhs[i], leaf, depth+1)) {
 								okAll = false
 							}
 						}
@@ -836,4 +854,43 @@ func init() {
 			}
 			return obs
 		}})
+}
+
+// concatOnlyOfParams: every return of the declared function gives one of its own string parameters, a string
+// constant, or a `+` concatenation of those — no slicing, trimming or conversion of the text.
+func concatOnlyOfParams(info *types.Info, fd *ast.FuncDecl) bool {
+	params := map[types.Object]bool{}
+	if fd.Type.Params != nil {
+		for _, f := range fd.Type.Params.List {
+			for _, nm := range f.Names {
+				if o := info.Defs[nm]; o != nil {
+					params[o] = true
+				}
+			}
+		}
+	}
+	var okExpr func(e ast.Expr) bool
+	okExpr = func(e ast.Expr) bool {
+		e = ast.Unparen(e)
+		if tv, ok := info.Types[e]; ok && tv.Value != nil {
+			return true
+		}
+		if o := identObj(info, e); o != nil && params[o] {
+			return true
+		}
+		if be, ok := e.(*ast.BinaryExpr); ok && be.Op == token.ADD {
+			return okExpr(be.X) && okExpr(be.Y)
+		}
+		return false
+	}
+	rets := returnsOf(fd.Body)
+	if len(rets) == 0 {
+		return false
+	}
+	for _, rs := range rets {
+		if len(rs.Results) != 1 || !okExpr(rs.Results[0]) {
+			return false
+		}
+	}
+	return true
 }
